@@ -78,6 +78,8 @@ func (c *Ctx) c17IndexAgreement() {
 	c.c17SelfOnCreate()
 	r.Rule("R17.9", "who may call which entry: the permission kinds (Self / Admin / Specific) every guarded dispatchable entry offers at its checkPermission guard - given at the guard or handed to a forwarding helper such as basicGovernance - stay within the reference table frozen in checker/rules/c17_perms.go (confirmed by reading the contracts); an added kind widens who may call the entry and is reported, a dropped kind is not. New entries are not in the table and are judged by R17.2 only.")
 	c.c17PermTable()
+	r.Rule("R17.10", "the owner comes from the record: where a function has loaded the governed object (a *Service, whose owner is its ChainID; a *Dapp, whose owner is its OwnerAddr) and then checks a Self / Admin permission, the identity it hands to checkPermission is that owner field of the loaded record - not something parsed out of the caller-supplied id string (appchain ids are free-form and may contain the separator, so the part before the first ':' of a service id can name another registered appchain, whose admin would then govern a service it does not own).")
+	c.c17OwnerFromRecord()
 	type site struct {
 		idx, ctor, pos, fn string
 	}
